@@ -762,8 +762,9 @@ func init() {
 				hj("C17.resume", "H_C17_resume", "dispatch/FileEnd with resume report and verdict arriving at any step"),
 			}
 			if tier == "thorough" {
-				js = append(js, hj("C17.resume-mid", "H_C17_resume_mid", "3 chunks, 2 workers, 9 steps"),
-					hj("C17.plain-deep", "H_C17_plain_deep", "4 chunks, 3 workers, 10 steps"))
+				js = append(js, hj("C17.plain-deep", "H_C17_plain_deep", "4 chunks, 3 workers, 10 steps"))
+				// H_C17_resume_mid (3 chunks, 2 workers, 9 steps; 8 minutes alone) is available through `./check checkjob` but
+				// not registered: together with the whole-sender obligations the tier would not finish within 45 minutes
 				// H_C17_resume_deep (4 chunks, 3 workers, 11 steps with report/verdict arrival) does not finish within 15 minutes on 16 cores: not registered
 			}
 			for _, j := range js {
